@@ -311,6 +311,7 @@ def run(tier):
     # the tie of the model's autoderef to the typer: steps, address, type and coercion of generated references
     from .. import adtie
     adn, adstats, adbad = adtie.run(ck, 700 if tier == "quick" else 30000, ck.seed + 17)
+    asn, asstats, asbad = adtie.run_assign(ck, 700 if tier == "quick" else 30000, ck.seed + 18)
     if not proof_ok:
         ck.violation("tie-broken:proof", "Props/C07.v no longer checks", getattr(ck, "proof_output", "")[-2000:])
     ck.coverage.update(
